@@ -10,8 +10,8 @@ pub static PROP: PropDef = PropDef {
     builds: opt_and_dbg,
     max_tape: 40,
     cases: |t| match t {
-        Tier::Quick => 8_000,
-        Tier::Thorough => 400_000,
+        Tier::Quick => 40_000,
+        Tier::Thorough => 800_000,
     },
     fixed: no_fixed,
     check,
